@@ -268,16 +268,16 @@ func (s *Server) aofshrink() {
 			// point to the new file.
 
 			// anything below this point is unrecoverable. just log and exit process
-			// back up the live aof, just in case of fatal error
 			if err := s.aof.Close(); err != nil {
 				log.Fatalf("shrink live aof close fatal operation: %v", err)
 			}
 			if err := f.Close(); err != nil {
 				log.Fatalf("shrink new aof close fatal operation: %v", err)
 			}
-			if err := os.Rename(s.opts.AppendFileName, s.opts.AppendFileName+"-bak"); err != nil {
-				log.Fatalf("shrink backup fatal operation: %v", err)
-			}
+			// Replace the live aof with the shrunken one in a single rename.
+			// The live file must never be moved away first: a crash between
+			// two renames would leave the directory without an aof, and the
+			// next start would create an empty one and lose the dataset.
 			if err := os.Rename(s.opts.AppendFileName+"-shrink", s.opts.AppendFileName); err != nil {
 				log.Fatalf("shrink rename fatal operation: %v", err)
 			}
@@ -291,8 +291,6 @@ func (s *Server) aofshrink() {
 				log.Fatalf("shrink seek end fatal operation: %v", err)
 			}
 			s.aofsz = int(n)
-
-			os.Remove(s.opts.AppendFileName + "-bak") // ignore error
 
 			return nil
 		}()
